@@ -35,7 +35,11 @@ func replay(e *env) {
 			fmt.Printf("replay %d: REPRODUCED: %s\n", i, msg)
 			rc := c
 			rc.Note = msg
-			e.r.Violation("replay:"+c.Sub+":"+c.Rule+":"+c.Shape+":"+c.State+c.Family+":"+c.Path, &rc)
+			key := c.Key
+			if key == "" {
+				key = "replay:" + c.Sub + ":" + c.Rule + ":" + c.Shape + ":" + c.State + c.Family + ":" + c.Path
+			}
+			e.r.Violation(key, &rc)
 		} else {
 			fmt.Printf("replay %d: the case passes\n", i)
 		}
@@ -162,7 +166,7 @@ func (e *env) replayBlock(c *caseRec) string {
 	if c.Tx != "" {
 		extra = unhex(c.Tx)
 	}
-	sub := &findings{m: map[string]*finding{}, n: map[string]int{}}
+	sub := newFindings()
 	old := e.f
 	e.f = sub
 	e.blockCase(fam, al, c.Subset, "as-recorded", extra)
